@@ -121,8 +121,16 @@ fn c14() -> Property {
                 cases_per_seed: 1,
                 note: "real client <-> scripted peer that closes / ends / detaches with or without an error after a seeded number of frames",
             },
+            Variant {
+                name: "teardown-answered-with-error",
+                weight: 1,
+                make: || Box::pin(scen::c14::run_answered_with_error()),
+                max_steps: 3_000_000,
+                cases_per_seed: 1,
+                note: "real client <-> scripted peer that answers the application's detach, end or close with an error (optionally before it has seen the endpoint's frame)",
+            },
         ],
-        quick_runs: 2 * scen::c14::CASES,
+        quick_runs: 3 * scen::c14::CASES,
         thorough_runs: 40 * scen::c14::CASES,
         rule: "(a) per seed (= network behaviour and schedule) a fixed reference conversation (open, two sessions, an unsettled sender with three batchable sends of which one is multi-frame plus a plain send, a receiver with two deliveries, detach, close, end, close) is run once per (direction, byte offset 0..=MAX, cut kind in {eof, reset, stall-then-eof}); offsets beyond the conversation are counted as skipped (trivial); (b) per seed one scripted-peer run with the stop kind, error presence and position drawn from the seed; distinct = distinct event-log hash",
         assumptions: vec![
@@ -131,7 +139,7 @@ fn c14() -> Property {
         ],
         real_components: REAL.to_vec(),
         stub_components: STUB.to_vec(),
-        expected_probes: vec!["late-attach-error-names-the-stop", "late-operation-failed", "peer-error-carried-by-link-error", "re-attach-after-suspension", "cut-beyond-conversation"],
+        expected_probes: vec!["late-attach-error-names-the-stop", "late-operation-failed", "peer-error-carried-by-link-error", "re-attach-after-suspension", "cut-beyond-conversation", "answer-error-reported"],
     }
 }
 
